@@ -132,7 +132,7 @@ theorem EnginePair.permG {nnc n cs gs gs' fC fG sC sG} (h : EnginePair nnc n cs 
     EnginePair nnc n cs gs' fC false sC' sG' := by
   have hnd := h.nodupG
   have hnd' : gs'.Nodup := hp.nodup_iff.mpr hnd
-  refine ⟨?_, fun x hl hx => generated_perm (hp.map _) x (h.complete x hl hx), h.minC, ?_, hsC',
+  refine ⟨?_, fun x hl hx => generated_perm (hp.map _) x (h.complete x hl hx), h.minC, ?_, ?_, hsC',
     fun h' => (by cases h')⟩
   · intro d hd s hs
     obtain ⟨r, hr, rfl⟩ := List.mem_map.mp hd
@@ -144,6 +144,19 @@ theorem EnginePair.permG {nnc n cs gs gs' fC fG sC sG} (h : EnginePair nnc n cs 
       rw [List.getD_eq_getElem?_getD, List.getElem?_eq_getElem hj]; rfl
     have hgk : gs.getD k default = gs[k] := by
       rw [List.getD_eq_getElem?_getD, List.getElem?_eq_getElem hk]; rfl
+    rw [hgj] at hgen
+    rw [hgk, hkr]
+    have hpe : (gs.eraseIdx k).Perm (gs'.eraseIdx j) := by
+      rw [← hnd.erase_getElem k hk, ← hnd'.erase_getElem j hj, hkr]
+      exact (hp.erase _).symm
+    exact generated_perm (hpe.map _) _ hgen
+  · intro j hj hline hgen
+    obtain ⟨k, hk, hkr⟩ := List.getElem_of_mem (hp.mem_iff.mp (List.getElem_mem hj))
+    have hgj : gs'.getD j default = gs'[j] := by
+      rw [List.getD_eq_getElem?_getD, List.getElem?_eq_getElem hj]; rfl
+    have hgk : gs.getD k default = gs[k] := by
+      rw [List.getD_eq_getElem?_getD, List.getElem?_eq_getElem hk]; rfl
+    apply h.minL k hk (by rw [hgk, hkr, ← hgj]; exact hline)
     rw [hgj] at hgen
     rw [hgk, hkr]
     have hpe : (gs.eraseIdx k).Perm (gs'.eraseIdx j) := by
